@@ -28,12 +28,17 @@ from mpyc import statistics as mpyc_statistics  # noqa: E402
 TAG = contextvars.ContextVar('randstat_tag', default=None)
 
 
+class BitBudgetExceeded(RuntimeError):
+    pass
+
+
 class BitSource:
     def __init__(self):
         self.reset()
 
     def reset(self, seed=None):
         self.seed = seed          # None: explicit streams only
+        self.limit = 3000         # bits one tagged call may draw (beyond an explicit stream) before we give up
         self.streams = {}         # tag -> list of bits
         self.cur = {}             # (pid, tag) -> number of bits drawn
         self.short = {}           # (pid, tag) -> bits missing at the first exhausted draw
@@ -56,6 +61,9 @@ class BitSource:
 
     def take(self, pid, tag, n):
         c = self.cur.get((pid, tag), 0)
+        if c + n > self.limit + len(self.streams.get(tag, ())) * (self.seed is None):
+            # a rejection loop that keeps asking for bits (e.g. a code change that rejects everything)
+            raise BitBudgetExceeded(f'more than {self.limit} bits drawn by one call (tag {tag})')
         s = self.stream(tag, c + n)
         out = []
         for j in range(c, c + n):
